@@ -707,6 +707,10 @@ func genC04(c *ctx) {
 		b.emit(st, "3p/"+class, true, oracle04)
 	}
 	// "sealing the same content twice never yields the same bytes": no AEAD nonce may repeat across the seals of this run
+	if sym.TicketHelperFail != "" {
+		b := newBuilder(c.r.Fork())
+		b.emit(st, "ticket-helpers", true, sym.TicketHelperFail)
+	}
 	c.set.Notes["seals"] = map[string]any{"distinct_sealed_values": sym.Seals, "violation": sym.DupSeal}
 	if sym.DupSeal != "" {
 		b := newBuilder(c.r.Fork())
